@@ -154,6 +154,10 @@ func init() {
 		r.Assumptions = []string{"a deadline on a net.Conn makes blocked reads return (package net)", "closing a socket unblocks readers", "go/ssa is faithful"}
 		RuleTransport(r, p, aspectSet{"T1": true, "T2": true, "T3": true, "T4": true})
 		RuleShare(r, p, aspectSet{"T7": true})
+		// the listener's goroutines: the consumer ends on every return of Listen (LS3), the driver's two goroutines end after the stop signal (LS6)
+		r.Only = map[string]bool{"LS3": true, "LS6": true}
+		RuleListen(r, p)
+		r.Only = nil
 	}
 
 	checks["C10"] = func(r *Report, p *Program, tier string) {
@@ -164,6 +168,7 @@ func init() {
 			return
 		}
 		RuleListen(r, p)
+		RuleDelivered(r, p, true)
 		RuleReadBuffers(r, p)
 		RuleK4(r, c)
 		RuleEventLayout(r, c)
@@ -177,6 +182,7 @@ func init() {
 		only := map[string]bool{"GetDevices": true}
 		RuleAPI(r, p, declareAPI(r, []string{"A0", "A2", "A3", "A4", "A6"}, map[string]int{"A0": 0, "A3": 2, "A4": 0}), only)
 		RuleBroadcastHelper(r, p)
+		RuleDelivered(r, p, false)
 		RuleReadBuffers(r, p)
 		RuleShareIn(r, p, aspectSet{"T8": true, "T7": true}, func(parent string) bool { return returnsListName(p, parent) })
 		RuleR3(r, p)
